@@ -567,7 +567,9 @@ func (x *Exec) callByContract(ct *Contract, callee *types.Func, n *ast.CallExpr,
 	}
 	for _, w := range ct.Witness {
 		if wt := c.eng.witnessType(ct, w); wt != nil {
-			penv.names[w] = c.freshVal("wit."+w, wt, nil)
+			wv := c.freshVal("wit."+w, wt, nil)
+			penv.names[w] = wv
+			post.ghost[w] = wv // the caller's own contract may name the callee's witness
 		}
 	}
 	for _, en := range ct.Ensures {
